@@ -159,4 +159,38 @@ theorem k_to_zero (dr : ℝ) (N : ℕ) (rf s : ℕ → ℝ) :
 example : (∀ x : ℝ, |Real.sin x| ≤ 1) ∧ (∀ x y : ℝ, |Real.sin x - Real.sin y| ≤ 1 * |x - y|) :=
   ⟨Real.abs_sin_le_one, fun x y => by rw [one_mul]; exact Real.abs_sin_sub_sin_le x y⟩
 
+/-! ### the unit of length: a Domain with spacing `u·dr` (hence `dk/u`) -/
+
+/-- the same grid in another unit of length -/
+noncomputable def scaleDom (u : ℝ) (d : Dom ℝ) : Dom ℝ := ⟨d.length, u * d.dr, d.dk / u⟩
+
+theorem scaleDom_inv (u : ℝ) (hu : u ≠ 0) (d : Dom ℝ) (hd : C07.DInv d) : C07.DInv (scaleDom u d) := by
+  obtain ⟨hN, hdr, hdk⟩ := hd
+  refine ⟨hN, mul_ne_zero hu hdr, ?_⟩
+  show d.dk / u = π / (u * d.dr * d.length)
+  rw [hdk]; field_simp
+
+/-- **forward transform under a change of the unit of length**: the same samples on the grid `u·r` transform to `u³` times the
+transform on `r`, at the wavenumbers `k/u` — the behaviour of a volume integral `∫ f d³r`; in particular no absolute length
+enters `to_fourier` -/
+theorem toFourier_length_unit (u : ℝ) (hu : u ≠ 0) (d : Dom ℝ) (hd : C07.DInv d) (f : Array ℝ) (j : ℕ) (hj : j < d.length) :
+    ((scaleDom u d).toFourier f)[j]! = u ^ 3 * (d.toFourier f)[j]! := by
+  rw [toFourier_riemann _ (scaleDom_inv u hu d hd) f j hj, toFourier_riemann d hd f j hj]
+  obtain ⟨hN, hdr, hdk⟩ := hd
+  show (4 * π * (u * d.dr) / (((j : ℝ) + 1) * (d.dk / u))) *
+      ∑ i ∈ range d.length, (((i : ℝ) + 1) * (u * d.dr)) * f[i]! * Real.sin ((((j : ℝ) + 1) * (d.dk / u)) * ((((i : ℝ) + 1) * (u * d.dr)) - (u * d.dr) / 2)) = _
+  have harg : ∀ i : ℕ, (((j : ℝ) + 1) * (d.dk / u)) * ((((i : ℝ) + 1) * (u * d.dr)) - (u * d.dr) / 2)
+      = (((j : ℝ) + 1) * d.dk) * ((((i : ℝ) + 1) * d.dr) - d.dr / 2) := by
+    intro i; field_simp
+  simp only [harg]
+  have hterm : ∀ i ∈ range d.length, (((i : ℝ) + 1) * (u * d.dr)) * f[i]! * Real.sin ((((j : ℝ) + 1) * d.dk) * ((((i : ℝ) + 1) * d.dr) - d.dr / 2))
+      = u * ((((i : ℝ) + 1) * d.dr) * f[i]! * Real.sin ((((j : ℝ) + 1) * d.dk) * ((((i : ℝ) + 1) * d.dr) - d.dr / 2))) := by
+    intro i _; ring
+  rw [Finset.sum_congr rfl hterm, ← Finset.mul_sum]
+  have hj1 : ((j : ℝ) + 1) ≠ 0 := by positivity
+  have hNr : (d.length : ℝ) ≠ 0 := by exact_mod_cast hN.ne'
+  have hdk0 : d.dk ≠ 0 := by rw [hdk]; exact div_ne_zero pi_ne_zero (mul_ne_zero hdr hNr)
+  generalize (∑ i ∈ range d.length, (((i : ℝ) + 1) * d.dr) * f[i]! * Real.sin ((((j : ℝ) + 1) * d.dk) * ((((i : ℝ) + 1) * d.dr) - d.dr / 2))) = S
+  field_simp
+
 end C08
